@@ -65,7 +65,8 @@ def buildOpenArgs (a : Args) (s : SSHArgs) (extra : List Bytes) : List Bytes :=
   let secs := fmtInt (timeoutSeconds a.timeoutNs)
   [a.host, b!"-p", fmtInt a.port,
    b!"-o", b!"ConnectTimeout=" ++ secs,
-   b!"-o", b!"ServerAliveInterval=" ++ secs]
+   b!"-o", b!"ServerAliveInterval=" ++ secs,
+   b!"-o", b!"EscapeChar=none"]
   ++ (if a.user ≠ [] then [b!"-l", a.user] else [])
   ++ (if s.strictKey then
         [b!"-o", b!"StrictHostKeyChecking=yes"]
